@@ -37,6 +37,15 @@ func TestC22(t *testing.T) {
 			genesisIDs[c.ID] = true
 		}
 		recreates, ownerChanges, creations := 0, 0, 0
+		// reference ticker owners, kept by the harness: genesis, then accepted transactions only
+		owners := map[string]*types.Address{}
+		for _, c := range h.G.V.Exp.Coins {
+			if c.Version == 0 {
+				owners[c.Symbol.String()] = c.OwnerAddress
+			}
+		}
+		followUps, restarts, sameBlockFollowUps := 0, 0, 0
+		var followSym *types.CoinSymbol
 		liquidityTxInBlock := false
 		var preOwner *types.Address
 		var preSymbol types.CoinSymbol
@@ -66,9 +75,17 @@ func TestC22(t *testing.T) {
 				preHave = true
 				preSymbol = *sym
 				preOwner = nil
-				if info := cs.Coins().GetSymbolInfo(*sym); info != nil && info.OwnerAddress() != nil {
-					o := *info.OwnerAddress()
-					preOwner = &o
+				if o := owners[sym.String()]; o != nil {
+					oo := *o
+					preOwner = &oo
+				}
+				// the node's own view of the owner must agree with the reference
+				var live *types.Address
+				if info := cs.Coins().GetSymbolInfo(*sym); info != nil {
+					live = info.OwnerAddress()
+				}
+				if (live == nil) != (preOwner == nil) || (live != nil && *live != *preOwner) {
+					violation(t, "ticker-owner-differs-from-model", h.R, "ticker %s: the node reports owner %v; by the accepted transactions since genesis it is %v", sym.String(), live, preOwner)
 				}
 			}
 		}
@@ -88,12 +105,25 @@ func TestC22(t *testing.T) {
 				}
 				if d.Type == tx.TypeEditCoinOwner {
 					ownerChanges++
+					if data, ok := d.GetDecodedData().(*tx.EditCoinOwnerData); ok {
+						no := data.NewOwner
+						owners[data.Symbol.String()] = &no
+						sy := data.Symbol
+						followSym = &sy
+					}
 				}
 				if d.Type == tx.TypeRecreateCoin || d.Type == tx.TypeRecreateToken {
 					recreates++
 				}
 			case tx.TypeCreateCoin, tx.TypeCreateToken:
 				creations++
+				sn := sender
+				switch data := d.GetDecodedData().(type) {
+				case *tx.CreateCoinData:
+					owners[data.Symbol.String()] = &sn
+				case *tx.CreateTokenData:
+					owners[data.Symbol.String()] = &sn
+				}
 			case tx.TypeCreateSwapPool, tx.TypeAddLiquidity, tx.TypeRemoveLiquidity:
 				liquidityTxInBlock = true
 			}
@@ -112,6 +142,18 @@ func TestC22(t *testing.T) {
 				seenSymVer[key] = c.ID
 				if c.Version == 0 {
 					v0[c.Symbol.String()]++
+				}
+			}
+			for _, c := range e.Coins {
+				if c.Version != 0 || strings.HasPrefix(c.Symbol.String(), "LP-") {
+					continue
+				}
+				want, have := owners[c.Symbol.String()]
+				if !have {
+					continue
+				}
+				if (want == nil) != (c.OwnerAddress == nil) || (want != nil && *want != *c.OwnerAddress) {
+					violation(t, "ticker-owner-differs-from-model", h.R, "after commit of %d the export gives ticker %s the owner %v; by the accepted transactions since genesis it is %v", height, c.Symbol.String(), c.OwnerAddress, want)
 				}
 			}
 			for sym, n := range v0 {
@@ -180,11 +222,51 @@ func TestC22(t *testing.T) {
 			_ = big.NewInt
 		}
 		nb := rapid.IntRange(1, scale(14, 40)).Draw(t, "nBlocks")
-		for i := 0; i < nb; i++ {
-			if !h.R.Block(t) {
+		for i := 0; i < nb && !h.R.Halted; i++ {
+			if i > 0 && sim.U(t, "restart", 5) == 0 {
+				h.N.Restart()
+				restarts++
+				h.R.Steps = append(h.R.Steps, "RESTART")
+			}
+			if !h.R.Begin(t) {
+				violation(t, "panic", h.R, "%s", h.R.PanicReport())
+			}
+			if h.R.Halted {
+				break
+			}
+			ntx := rapid.IntRange(0, 10).Draw(t, "nTxs")
+			for j := 0; j < ntx; j++ {
+				m := h.G.Next(t)
+				followSym = nil
+				if !h.R.Deliver(m) {
+					violation(t, "panic", h.R, "%s", h.R.PanicReport())
+				}
+				// an accepted owner change is followed, in the same block or the next one, by further
+				// ticker transactions of that ticker (recreate, owner change, mint): by the new owner,
+				// and by whoever the generator picks otherwise (often the previous owner)
+				if followSym != nil && sim.U(t, "followUp", 4) != 0 {
+					sy := *followSym
+					k := 1 + sim.U(t, "followN", 2)
+					for f := 0; f < k; f++ {
+						h.G.ForceSymbol = &sy
+						kind := []string{"recreateCoin", "recreateToken", "editCoinOwner", "recreateToken"}[sim.U(t, "followKind", 4)]
+						fm := h.G.Make(t, kind)
+						h.G.ForceSymbol = nil
+						followUps++
+						sameBlockFollowUps++
+						if !h.R.Deliver(fm) {
+							violation(t, "panic", h.R, "%s", h.R.PanicReport())
+						}
+					}
+				}
+			}
+			if !h.R.Finish() {
 				violation(t, "panic", h.R, "%s", h.R.PanicReport())
 			}
 		}
+		sim.S.LabelN("C22/restarts", restarts)
+		sim.S.LabelN("C22/ticker-follow-ups-after-owner-change", followUps)
+		_ = sameBlockFollowUps
 		sim.S.LabelN("C22/recreates", recreates)
 		sim.S.LabelN("C22/owner-changes", ownerChanges)
 		sim.S.LabelN("C22/creations", creations)
